@@ -189,6 +189,17 @@ def gen_C03(rng, tier):
             # a filter that raises ends get / get_match in TraversingError as well, default or not (C03-m11)
             cmds += [('get', 'doc', qcase.fix_path(p), ('const', 'dflt'), False), ('get_match', 'doc', qcase.fix_path(p), False, False)]
         out.append(Q({'doc': d, 'cmds': cmds}))
+    # a filter on a candidate that was itself reached by a parent step, followed by another parent step: the filter lets
+    # the candidate through unchanged, so q[f].parent climbs from where q.parent climbs (C03-m13)
+    for _ in range(sized(tier, 300, 4000)):
+        d = rand_doc(rng)
+        p = derive_path(rng, d, CHILD + ('rec',), maxextra=0)
+        i = rng.randint(1, len(p)) if p else 0
+        f = ('pred', qcase.gen_user(rng) if rng.random() < 0.5 else ('user', 'const', 1))
+        ins = rng.choice([[('parent',), f, ('parent',)], [('parent',), f, f, ('parent',)], [('parent',), f, ('parent',), ('parent',)],
+                          [('parent',), ('parent',), f, ('parent',)]])
+        p = qcase.fix_path(p[:i] + ins + p[i:][:1])
+        out.append(Q({'doc': d, 'cmds': [('iter', 'doc', p, False, rng.random() < 0.2), ('drain', 0, 40, 1)]}))
     return out
 
 
@@ -451,12 +462,17 @@ def gen_C07(rng, tier):
         d = rand_doc(rng)
         p = [qcase.gen_step(rng, ['wc', 'lwc', 'gwc', 'slice', 'tuple', 'rec'], 0)] + derive_path(rng, d, CHILD, maxextra=1)[:rng.choice([0, 1])]
         out.append(Q({'doc': d, 'cmds': [('iter', 'doc', qcase.fix_path(p), False, rng.random() < 0.3), ('drain', 0, 40, rng.choice([2, 3, 5]))]}))
+    # one path object evaluated hundreds of times, most evaluations left unfinished (direct oracle, no model)
+    out += [{'family': 'f', 'case': {'finding': 'REUSE', 'seed': rng.randrange(1 << 30), 'n': 400}} for _ in range(sized(tier, 6, 40))]
     return out
 
 
 def oracle_C07(case, o):
     """once StopIteration, always StopIteration (per iterator)"""
     errs = []
+    if case['family'] == 'f':
+        txt = o[2][0][1] if o[0] == 'N' and o[2] and o[2][0][0] == 'S' else repr(o)
+        return [] if str(txt).startswith('ok:') else ["one path object, many evaluations: %s" % (txt,)]
     if case['family'] == 'p':
         if o[2][0][1] != 'ok':
             return ["an evaluation preempted at line event(s) %s of %d by another evaluation of the same path object yields "
@@ -487,6 +503,8 @@ def oracle_C07(case, o):
 def nontrivial_C07(case, o):
     if case['family'] == 'p':
         return o[2][1][1] >= 30
+    if case['family'] == 'f':
+        return True
     return sum(1 for c in case['case']['cmds'] if c[0] == 'iter') >= 2 and n_results(o) >= 2
 
 
@@ -762,6 +780,8 @@ def gen_C17(rng, tier):
     # the library's own tracer: log_to(lines.append) against the model of trace._log (Builder.v log_line)
     out += [{'family': 'b', 'case': bcase.gen_bcase(rng, log=True)} for _ in range(sized(tier, 300, 4000))]
     out += existence_cases(rng, sized(tier, 200, 2000))
+    # custom predicates searching on from the Match of their first get_match (direct oracle, no model)
+    out += [{'family': 'f', 'case': {'finding': 'TWOHOP', 'seed': rng.randrange(1 << 30)}} for _ in range(sized(tier, 150, 1500))]
     return out
 
 
@@ -778,6 +798,9 @@ def only_traces_removed(ev_untraced, ev_traced):
 
 def oracle_C17(case, o):
     errs = []
+    if case['family'] == 'f':
+        txt = o[2][0][1] if o[0] == 'N' and o[2] and o[2][0][0] == 'S' else repr(o)
+        return [] if str(txt).startswith('ok:') else ["two-hop custom predicate: %s" % (txt,)]
     if case['family'] != 'q':
         return errs
     cmds = case['case']['cmds']
